@@ -1799,7 +1799,7 @@ _generations_tuple(PyObject* ro)
 static PyObject*
 verify_changed(VB* self, PyObject* ignored)
 {
-    PyObject *t, *ro;
+    PyObject *t, *ro, *generations, *old;
 
     VB_clear(self);
 
@@ -1822,13 +1822,22 @@ verify_changed(VB* self, PyObject* ignored)
     if (ro == NULL)
         return NULL;
 
-    self->_verify_generations = _generations_tuple(ro);
-    if (self->_verify_generations == NULL) {
+    generations = _generations_tuple(ro);
+    if (generations == NULL) {
         Py_DECREF(ro);
         return NULL;
     }
 
+    /* Everything since VB_clear() can run arbitrary Python code (the
+       destructor of a value only the caches kept alive, ``ro`` and
+       ``_generation`` properties), which can call ``changed()`` again and
+       store snapshots of its own: release those instead of leaking them. */
+    old = self->_verify_generations;
+    self->_verify_generations = generations;
+    Py_XDECREF(old);
+    old = self->_verify_ro;
     self->_verify_ro = ro;
+    Py_XDECREF(old);
 
     Py_INCREF(Py_None);
     return Py_None;
